@@ -2,6 +2,7 @@ package c10
 
 import (
 	"context"
+	"errors"
 	"fmt"
 	"hash/fnv"
 	"io/fs"
@@ -17,8 +18,10 @@ import (
 	"github.com/tetratelabs/wazero"
 	"github.com/tetratelabs/wazero/api"
 	"github.com/tetratelabs/wazero/experimental"
+	experimentalsys "github.com/tetratelabs/wazero/experimental/sys"
 	"github.com/tetratelabs/wazero/imports/wasi_snapshot_preview1"
 	"github.com/tetratelabs/wazero/internal/verifhook"
+	"github.com/tetratelabs/wazero/internal/wasm"
 	"github.com/tetratelabs/wazero/verifharness/core"
 	"github.com/tetratelabs/wazero/verifharness/wenc"
 )
@@ -32,12 +35,13 @@ type opSpec struct {
 	H  int    `json:"h,omitempty"`  // handle selector (close / isclosed): index into the client's handle list
 	X  uint32 `json:"x,omitempty"`  // exit code
 	CC bool   `json:"cc,omitempty"` // compile: close the CompiledModule afterwards
+	F  int    `json:"f,omitempty"`  // instantiate: 1 = mount a counting FS and open a file on it, 2 = that file's Close fails
 }
 
 func (o opSpec) String() string {
 	switch {
 	case o.K.isInst() || o.K == kLookup:
-		return fmt.Sprintf("%s(%s)", kindShort[o.K], nameStr(o.N))
+		return fmt.Sprintf("%s(%s%s)", kindShort[o.K], nameStr(o.N), resMark[o.F])
 	case o.K == kClose || o.K == kIsClosed:
 		return fmt.Sprintf("%s(h%d)", kindShort[o.K], o.H)
 	case o.K == kCloseX:
@@ -112,6 +116,14 @@ func genScript(r *core.Rng, engine int) *script {
 		o := opSpec{K: kInst, N: r.Intn(3)}
 		if r.Chance(1, 5) {
 			o.K, o.N = kHostInst, r.Intn(2)
+		} else if r.Chance(2, 3) {
+			// fault injection: this instance holds an open file; for half of them its Close fails.
+			// Only instances created before the clients start get one: opening a file on an
+			// instance that other goroutines may already be closing would be the harness's race.
+			o.F = 1 + r.Intn(2)
+			if r.Chance(1, 4) {
+				o.K = kInstBin
+			}
 		}
 		sc.Pre = append(sc.Pre, o)
 	}
@@ -289,6 +301,7 @@ type rec struct {
 	pv        string // panic value
 	stack     string
 	inst      *instRec
+	cfs       *countFS // fault injection: the FS whose file this instance holds open
 }
 
 type finding struct {
@@ -363,6 +376,23 @@ func (h *hist) exec(client int, sp opSpec, hs *[]api.Module, bin []byte) (r rec)
 		}
 		r.res, r.mod = rOK, m
 		*hs = append(*hs, m)
+		if r.cfs != nil {
+			if e := openOn(m); e != "" {
+				r.err, r.cfs = "harness could not open the file: "+e, nil
+			}
+		}
+	}
+	closeDone := func(err error) {
+		if err != nil {
+			r.res, r.err = rResErr, err.Error()
+		}
+	}
+	withRes := func(cfg wazero.ModuleConfig) wazero.ModuleConfig {
+		if sp.F == 0 || (h.fsys != nil && r.kind == kInst) {
+			return cfg
+		}
+		r.cfs = newCountFS(sp.F == 2)
+		return cfg.WithFSConfig(wazero.NewFSConfig().WithFSMount(r.cfs, "/"))
 	}
 	compDone := func(cm wazero.CompiledModule, err error) {
 		if err != nil {
@@ -379,7 +409,7 @@ func (h *hist) exec(client int, sp opSpec, hs *[]api.Module, bin []byte) (r rec)
 	}
 	switch r.kind {
 	case kInst:
-		cfg := wazero.NewModuleConfig().WithName(name)
+		cfg := withRes(wazero.NewModuleConfig().WithName(name))
 		cm := h.cm
 		if h.fsys != nil {
 			cfg = cfg.WithFSConfig(wazero.NewFSConfig().WithFSMount(h.fsys, "/"))
@@ -389,7 +419,7 @@ func (h *hist) exec(client int, sp opSpec, hs *[]api.Module, bin []byte) (r rec)
 		r.ret = h.tick()
 		instDone(m, err)
 	case kInstBin:
-		cfg := wazero.NewModuleConfig().WithName(name)
+		cfg := withRes(wazero.NewModuleConfig().WithName(name))
 		r.call = h.tick()
 		m, err := h.rt.InstantiateWithConfig(ctx, bin, cfg)
 		r.ret = h.tick()
@@ -414,16 +444,12 @@ func (h *hist) exec(client int, sp opSpec, hs *[]api.Module, bin []byte) (r rec)
 		r.call = h.tick()
 		err := r.mod.Close(bg)
 		r.ret = h.tick()
-		if err != nil {
-			r.err = err.Error()
-		}
+		closeDone(err)
 	case kCloseX:
 		r.call = h.tick()
 		err := r.mod.CloseWithExitCode(bg, sp.X)
 		r.ret = h.tick()
-		if err != nil {
-			r.err = err.Error()
-		}
+		closeDone(err)
 	case kIsClosed:
 		r.call = h.tick()
 		b := r.mod.IsClosed()
@@ -549,7 +575,12 @@ func runHistory(sc *script, hc hookCfg, mode string) *histOut {
 	var recs []rec
 	var pre []api.Module
 	for _, o := range sc.Pre {
-		recs = append(recs, h.exec(0, o, &pre, nil))
+		var bin []byte
+		if o.K == kInstBin {
+			bin = uniqueBin(k)
+			k++
+		}
+		recs = append(recs, h.exec(0, o, &pre, bin))
 	}
 	perClient := make([][]rec, len(sc.G))
 	start := make(chan struct{})
@@ -601,11 +632,19 @@ func (h *hist) finish(out *histOut, sc *script, recs []rec, hk *hookState) {
 		mods = append(mods, m)
 		return ids[m]
 	}
+	failing := map[int]bool{} // modules holding a file whose Close fails
 	rtCodes := map[uint32]bool{0: true}
 	modCodes := map[int]map[uint32]bool{}
 	for i := range recs {
 		r := &recs[i]
 		o := lop{Client: r.client, Kind: r.kind, Name: r.name, ID: idOf(r.mod), Res: r.res, Call: r.call, Ret: r.ret, Err: r.err, X: r.spec.X}
+		if r.cfs != nil {
+			o.F = 1
+			if r.cfs.fail {
+				o.F = 2
+				failing[o.ID] = true
+			}
+		}
 		o.fill()
 		out.lops = append(out.lops, o)
 		out.ops[kindName[r.kind]+"="+resName[r.res]]++
@@ -682,6 +721,28 @@ func (h *hist) finish(out *histOut, sc *script, recs []rec, hk *hookState) {
 	h.afterClose(out)
 	if h.fsys != nil {
 		h.fsys.check(out, witness)
+	}
+	// fault injection: every held file was closed exactly once; only a module holding a
+	// failing file may report an error from Close, and at most one Close of it does.
+	errCloses := map[int]int{}
+	for i := range recs {
+		r := &recs[i]
+		if r.cfs != nil {
+			r.cfs.check(out, witness)
+			out.ops["instances-holding-a-file"]++
+			if r.cfs.fail {
+				out.ops["instances-holding-a-failing-file"]++
+			}
+		}
+		if (r.kind == kClose || r.kind == kCloseX) && r.res == rResErr {
+			id := idOf(r.mod)
+			errCloses[id]++
+			if !failing[id] {
+				out.add("close:error-without-failing-resource", fmt.Sprintf("Close of m%d returned %q although nothing it holds fails to close", id, r.err), witness())
+			} else if errCloses[id] > 1 {
+				out.add("close:resource-error-reported-twice", fmt.Sprintf("two Close calls of m%d returned the resource's error: its resources were released twice", id), witness())
+			}
+		}
 	}
 
 	// interleaving measures
@@ -793,6 +854,7 @@ func engineName(e int) string {
 
 type countFS struct {
 	inner fs.FS
+	fail  bool // Close of the files handed out reports an I/O error
 	mu    sync.Mutex
 	files []*countFile
 }
@@ -800,11 +862,31 @@ type countFS struct {
 type countFile struct {
 	fs.File
 	name   string
+	fail   bool
 	closes int32
 }
 
-func newCountFS() *countFS {
-	return &countFS{inner: fstest.MapFS{"f": &fstest.MapFile{Data: []byte("x")}}}
+func newCountFS(fail bool) *countFS {
+	return &countFS{fail: fail, inner: fstest.MapFS{"f": &fstest.MapFile{Data: []byte("x")}}}
+}
+
+// openOn opens the file "f" of the instance's first pre-open, the way a guest's
+// path_open would, from the harness. Only called while no other goroutine can
+// know the instance.
+func openOn(m api.Module) string {
+	mi, ok := m.(*wasm.ModuleInstance)
+	if !ok || mi.Sys == nil {
+		return "not a guest instance"
+	}
+	fsc := mi.Sys.FS()
+	pre, ok := fsc.LookupFile(3)
+	if !ok || pre.FS == nil {
+		return "no pre-open"
+	}
+	if _, errno := fsc.OpenFile(pre.FS, "f", experimentalsys.O_RDONLY, 0); errno != 0 {
+		return errno.Error()
+	}
+	return ""
 }
 
 func (c *countFS) Open(name string) (fs.File, error) {
@@ -812,7 +894,7 @@ func (c *countFS) Open(name string) (fs.File, error) {
 	if err != nil {
 		return nil, err
 	}
-	cf := &countFile{File: f, name: name}
+	cf := &countFile{File: f, name: name, fail: c.fail && name == "f"}
 	c.mu.Lock()
 	c.files = append(c.files, cf)
 	c.mu.Unlock()
@@ -821,7 +903,11 @@ func (c *countFS) Open(name string) (fs.File, error) {
 
 func (f *countFile) Close() error {
 	atomic.AddInt32(&f.closes, 1)
-	return f.File.Close()
+	err := f.File.Close()
+	if f.fail {
+		return errors.New("flush failed")
+	}
+	return err
 }
 
 func (c *countFS) check(out *histOut, witness func() any) {
